@@ -122,6 +122,11 @@ pub fn catch<T>(f: impl FnOnce() -> T) -> Result<T, String> {
     }
 }
 
+/// The last panic message the hook recorded (for harness panics).
+pub fn last_panic() -> String {
+    PANIC_MSG.with(|p| p.borrow().clone()).unwrap_or_else(|| "<no message recorded>".into())
+}
+
 /// Location part of a captured panic message, used as the (stable) clause.
 pub fn panic_clause(msg: &str) -> String {
     match msg.rsplit_once(" @ ") {
